@@ -76,7 +76,7 @@ func genC15(rt *rapid.T) *FmtCase {
 
 // genWOperand: what may sit at a %w position.
 func genWOperand(rt *rapid.T, vc *valConfig) *Val {
-	errKinds := []string{"err", "perr", "stderr", "serr", "ierr", "errstringer", "nilerr", "errwrap"}
+	errKinds := []string{"err", "perr", "stderr", "serr", "ierr", "errstringer", "nilerr", "errwrap", "errwrapv"}
 	if !vc.fmtCompat {
 		errKinds = append(errKinds, "errsafefmt", "errsafemsg")
 	}
@@ -87,7 +87,8 @@ func genWOperand(rt *rapid.T, vc *valConfig) *Val {
 			return vc.leafI(rt, k, false)
 		case "nilerr":
 			return &Val{K: k}
-		case "errwrap":
+		case "errwrap", "errwrapv":
+			// (errwrapv: a value type with a slice field - not comparable)
 			v := vc.leafS(rt, k, false, false)
 			v.Sub = []*Val{vc.leafS(rt, "stderr", false, false)}
 			return v
